@@ -717,6 +717,18 @@ recvrec_ack(br_ssl_engine_context *rc, size_t len)
 				br_ssl_engine_fail(rc, BR_ERR_BAD_LENGTH);
 				return;
 			}
+
+			/*
+			 * Alert records are not processed by chunks
+			 * (see below), hence they must fit in the
+			 * buffer.
+			 */
+			if (rc->record_type_in == BR_SSL_ALERT
+				&& rlen > (rc->ibuf_len - 5))
+			{
+				br_ssl_engine_fail(rc, BR_ERR_TOO_LARGE);
+				return;
+			}
 		}
 
 		/*
@@ -748,6 +760,19 @@ recvrec_ack(br_ssl_engine_context *rc, size_t len)
 	 * acknowledged.
 	 */
 	if (!rc->incrypt) {
+		/*
+		 * Alert records are an exception: the reaction to an
+		 * alert depends on what follows it in the record (a
+		 * close_notify stops the processing of the bytes not
+		 * yet seen, and with a shared buffer the rest of the
+		 * record would then never be read, nor the buffer
+		 * released for our own close_notify). They are short,
+		 * so we wait for the complete record, as is done when
+		 * encryption is active.
+		 */
+		if (rc->record_type_in == BR_SSL_ALERT && rc->ixc != 0) {
+			return;
+		}
 		rc->ixa = 5;
 		return;
 	}
